@@ -89,6 +89,7 @@ import JdProofs.CliRoundTripModesEx
 import JdProofs.CliRoundTripModesPatch
 import JdProofs.CliRoundTripModes
 import JdProps.C14V1
+import JdProps.C14MergeSet
 
 set_option autoImplicit false
 
